@@ -316,6 +316,19 @@ namespace
             }
             if(un != rp.second[size_t(d)]) sim::fail("MESHPART", where + ": mesh part '" + rp.first + "' dimension " + std::to_string(d) + ": union over patches has " +
               std::to_string(un.size()) + " entities, reference has " + std::to_string(rp.second[size_t(d)].size()));
+            // and patch by patch: a patch's part holds exactly those entities of the patch that belong to the part of the
+            // undecomposed mesh - also entities the patch touches the part with only in a vertex or an edge (boundary
+            // conditions are applied per patch: a missing entity is a DOF that one rank treats differently from its neighbours)
+            for(const auto& kv : by_lr)
+            {
+              std::set<Key> want;
+              for(const Key& k : kv.second->ents[size_t(d)]) if(rp.second[size_t(d)].count(k)) want.insert(k);
+              auto it = kv.second->parts.find(rp.first);
+              const std::set<Key> none;
+              const std::set<Key>& have = (it == kv.second->parts.end()) ? none : it->second[size_t(d)];
+              if(have != want) sim::fail("MESHPART_PATCH", where + ": mesh part '" + rp.first + "' dimension " + std::to_string(d) + " on layer rank " + std::to_string(kv.first) + " holds " +
+                std::to_string(have.size()) + " entities, the patch contains " + std::to_string(want.size()) + " entities of that part");
+            }
           }
         }
       }
